@@ -57,13 +57,13 @@ CHECKS = {
         "design_ref": "DESIGN.md section 8 / C14",
     },
     "C15": {
-        "technique": "Lean 4 verified language-equivalence checker (bisimulation up to flattening/character classes) evaluated on the regenerated reader table and rfc5234/rfc7405 modules + differential on generated ABNF fragments",
-        "text": "Rule-for-rule language equality of the reader table and the compiled rfc7405 module (and rfc5234 modulo char-val) as a kernel-checked obligation over data regenerated from /repo; plus parse_all agreement of the three real recognisers on generated fragments.",
+        "technique": "Lean 4 proof: verified language-inclusion checker (Abnf/Equiv.lean, soundness sub_sound = bisimulation up to flattening, unfolding and character classes) evaluated by the kernel, both directions, on the reader table and the rfc7405 / rfc5234 module tables REGENERATED from /repo on every run; engine-level corollary via completeness on a reference-closed plain rule set + differential on generated ABNF fragments through the three real recognisers",
+        "text": "C15.reader_equiv_rfc7405 / reader_equiv_rfc5234: rule for rule (24 resp. 21 meta rules paired by name, pairing checked), the reader's table and the compiled module denote the same spans on every text (rfc5234: against the reader table with char-val in its RFC 5234 form); C15.accepted_alike_rfc7405: the model's parse_all over either table accepts the same texts. The tables are regenerated from /repo, so a change to either side breaks the kernel-evaluated obligation; the model engine is tied to the Python engine by the differential run (parse_all of reader / rfc7405 / rfc5234 on generated fragments).",
         "design_ref": "DESIGN.md section 8 / C15",
     },
     "C19": {
-        "technique": "Lean 4 verified language-equivalence checker on the regenerated module data per listed pair + distinguishing-string search on the two real rules",
-        "text": "Per pair an equivalence obligation over regenerated data (pairs the checker cannot discharge are listed as differential-only in evidence) plus parse_all agreement on sentences from either side, mutants and exhaustive low code points.",
+        "technique": "Lean 4 proof: verified language-inclusion checker (Abnf/Equiv.lean) evaluated by the kernel in both directions for all 53 listed pairs over the table of all bundled rules REGENERATED from /repo; engine-level corollary (parse_all accepts alike) via completeness on the reference-closed plain rule set the pairs reach + distinguishing-string search on the two real rules",
+        "text": "C19.shared_constructs_equal: every listed pair (harness/c19_pairs.json) matches the same spans of every text, as a kernel-checked obligation over data regenerated from /repo; C19.shared_constructs_accepted_alike: the model's parse_all accepts a text with one rule iff with the other, for every hash order. Tie of the model engine to the code: parse_all agreement of the two real rules on sentences from either side, mutants and exhaustive low code points.",
         "design_ref": "DESIGN.md section 8 / C19",
     },
     "C16": {
@@ -77,8 +77,8 @@ CHECKS = {
         "design_ref": "DESIGN.md section 8 / C18",
     },
     "C05": {
-        "technique": "Lean 4: reference grammar of RFC 5234 s.4 + RFC 7405 typed from the RFCs and run by the (proved-sound) engine model; differential against the reader's 24 meta rules on generated/mutated/exhaustive-short ABNF fragments at every offset",
-        "text": "The reader's hand-written table is compared, rule for rule and offset for offset, with the RFC grammar transcribed independently in Lean (Abnf/Ref.lean) and executed by the engine model; the engine model's soundness w.r.t. RFC 5234 derivations is a theorem.",
+        "technique": "Lean 4 proof: the reader's table REGENERATED from /repo is (a) well-formed and flag-free, so the engine model is total and exact on it, and (b) rule for rule language-equal to the grammar of RFC 5234 s.4 + RFC 7405 typed in Abnf/Ref.lean (verified inclusion checker, both directions, kernel-evaluated) + differential of the real reader's 24 meta rules against that grammar on generated/mutated/exhaustive-short ABNF fragments at every offset",
+        "text": "C05.reader_exact_wrt_rfc: for every text, offset and meta rule X the model engine run on the reader's table lists exactly the ends the RFC grammar defines for X; C05.accepted_iff_abnf: parse_all accepts a text as X iff the RFC grammar derives the whole text. Ref.rfcG is typed by hand from the RFC text (trusted base). Tie of the model engine to the Python reader: end sets at every offset on generated fragments, after other grammars redefined core/meta names.",
         "design_ref": "DESIGN.md section 8 / C05",
     },
     "C06": {
